@@ -27,6 +27,9 @@ type Overlay struct {
 	instancesInfo     map[TokenID]bool
 	instancesLock     sync.Mutex
 	protocolInstances map[TokenID]ProtocolInstance
+	// closed is set by Close, protected by instancesLock: no instance is
+	// listed afterwards
+	closed bool
 
 	// treeMarshal that needs to be converted to Tree but host does not have the
 	// entityList associated yet.
@@ -673,6 +676,7 @@ func (o *Overlay) suite() network.Suite {
 func (o *Overlay) Close() {
 	o.instancesLock.Lock()
 	defer o.instancesLock.Unlock()
+	o.closed = true
 	for _, tni := range o.instances {
 		log.Lvl4(o.server.Address(), "Closing TNI", tni.TokenID())
 		o.nodeDelete(tni.Token())
@@ -785,6 +789,12 @@ func (o *Overlay) newTreeNodeInstanceFromToken(tn *TreeNode, tok *Token, io Mess
 	tni := newTreeNodeInstance(o, tok, tn, io)
 	o.instancesLock.Lock()
 	defer o.instancesLock.Unlock()
+	if o.closed {
+		// the server is closed: the instance is not listed, so no protocol
+		// can be bound to it, and its dispatching routine is stopped
+		tni.closeDispatch()
+		return tni
+	}
 	o.instances[tok.ID()] = tni
 	return tni
 }
